@@ -155,6 +155,11 @@ func (vc *VC) generate() (err error) {
 		vc.vals[p] = t
 		vc.params[names[i].Name] = binding{t: t, typ: goT(p.Type())}
 		vc.assumeValid(t, p.Type())
+		if _, isPtr := p.Type().Underlying().(*types.Pointer); isPtr {
+			// a non-nil pointer parameter points into an object that exists at entry (the guard of the validity facts
+			// about the fields of existing objects)
+			vc.assume(implies(not(eq(t, "0")), and(app("<", "0", app("ys.root", t)), app("<", app("ys.root", t), vc.next(vc.entry)))))
+		}
 		vc.witness = append(vc.witness, namedTerm{names[i].Name, t, vc.reg.sortOf(p.Type())})
 	}
 	for _, fv := range fn.FreeVars {
